@@ -66,6 +66,14 @@ def drive_case(case):
     return {"id": case["id"], "both": [first, second]}
 
 
+def corrupt(o):
+    """binding self-test: the recorded tree is put under a NOT"""
+    if not o["ret"]["ok"]:
+        return None
+    o["ret"]["tree"] = {"k": "not", "i": 0, "args": [o["ret"]["tree"]]}
+    return o
+
+
 def run(tier: str, seed: int) -> int:
     chk = Check("C02", tier, seed, "model_checking")
     chk.model_check("MC_Text")
@@ -73,6 +81,7 @@ def run(tier: str, seed: int) -> int:
     cases = chk.generate("Gen_C02", shards=[1, 2, 3, 4, 5, 6])
     obs = [o for pair in drive("harness.props.c02", "drive_case", cases) for o in pair["both"]]
     verdicts = chk.judge("Judge_C02", obs)
+    chk.binding_selftest("Judge_C02", obs, verdicts, corrupt)
     by_id = {o["id"]: {"names": [uncps(n) for n in o["names"]], "text": uncps(o["text"]), "ret": o["ret"]} for o in obs}
     raw = {c["id"]: c for c in cases}
     raw.update({c["id"] + SECOND: c for c in cases})
